@@ -2,7 +2,7 @@
    [value]. The OCaml driver only parses and prints values; the same [run_case] is evaluated by
    vm_compute in the thorough tier. *)
 From Coq Require Import String Ascii List ZArith NArith Bool DecimalString.
-From Bkl Require Import Model.Value Model.Merge Model.Str Model.Eval Model.Tools Model.Parser Model.Wrapper Model.Files Model.Yaml.
+From Bkl Require Import Model.Value Model.Merge Model.Str Model.Eval Model.Tools Model.Parser Model.Wrapper Model.Files Model.Yaml Model.Root.
 Import ListNotations.
 Local Open Scope string_scope.
 Local Open Scope list_scope.
@@ -117,6 +117,16 @@ Fixpoint dec_ynode (fuel : nat) (v : value) : ynode :=
       end
   end.
 
+(* a path-level file system: [[comps...], ["dir"] | ["file", content] | ["link", spelled_abs, [comps...]]] *)
+Definition dec_cpath (v : value) : cpath := match v with VList l => map str_of l | _ => [] end.
+Definition dec_tfs (v : value) : tfs :=
+  flat_map (fun e => match e with
+                     | VList [p; VList [VStr k]] => if String.eqb k "dir" then [(dec_cpath p, TDir)] else []
+                     | VList [p; VList [VStr k; c]] => if String.eqb k "file" then [(dec_cpath p, TFile (Ok c))] else []
+                     | VList [p; VList [VStr k; VBool a; t]] => if String.eqb k "link" then [(dec_cpath p, TLink a (dec_cpath t))] else []
+                     | _ => []
+                     end) (list_of v).
+
 Definition opt_str (v : value) : option string := match v with VStr s => Some s | _ => None end.
 
 (* which oracle entry does evaluating [$encode: spec] on obj need next? (used by the harness to
@@ -218,6 +228,9 @@ Definition run_case (c : value) : value :=
                     (bkl_cli o (map str_of (list_of (lookup_or_null "fmts" (map_of t)))) (dec_fs fsv) opts)
         | _ => bad_case
         end
+      else if String.eqb opn "rootopen" then
+        (* [fs; root; path]: what opening path through a root handle on root returns (fuel 64: link hops + components) *)
+        match args with [fsv; r; p] => enc_res (fun x => x) (root_open 64 (dec_tfs fsv) (dec_cpath r) (dec_cpath p)) | _ => bad_case end
       else if String.eqb opn "ynode" then
         match args with [n] => enc_res (fun x => x) (ytranslate (dec_ynode (size n) n)) | _ => bad_case end
       else if String.eqb opn "wrap" then
